@@ -135,6 +135,20 @@ func init() {
 					us = append(us, c12Unit(3, s, 16, false))
 				}
 			}
+			// the contract also holds when calls overlap: a multi-key operation of either driver
+			// answers like some one-at-a-time order (what the mutex-protected driver always does)
+			for _, d := range vh.Drivers {
+				rb := 2
+				if d == vh.Badger {
+					rb = 1
+				}
+				if tier == "thorough" {
+					rb += 2
+				}
+				for _, scen := range []string{"report-vs-peer-checkin", "report-vs-peer-reconnect"} {
+					us = append(us, c11Race(d, scen, rb))
+				}
+			}
 			return us
 		},
 	})
